@@ -236,7 +236,9 @@ func (g *G) RelPath(base xref.NodeSet, maxSteps, predDepth int) *xast.Path {
 // from one context node, or a single descendant step (//n, descendant::n, .//n).
 func (g *G) FlatPath(base xref.NodeSet) *xast.Path {
 	if g.chance(2, "flatdesc") {
-		t := xast.NodeTest{Kind: "name", Local: g.pick(g.ElNames, "fn")}
+		// //name, //p:name, //*, //text(), //node() ... : any node test
+		ts := g.testsFor("child")
+		t := ts[g.intn(len(ts), "fdtest")]
 		switch g.intn(3, "flatdescform") {
 		case 0:
 			return &xast.Path{Abs: true, Steps: []interface{}{xast.DSlash{}, &xast.Step{Axis: "child", Test: t, Abbr: true}}}
@@ -411,6 +413,10 @@ func (g *G) PosExpr(ctx *xdoc.Node) xast.Expr {
 		}
 		n := 1 + g.intn(2, "tailsteps")
 		for i := 0; i < n; i++ {
+			if g.chance(3, "taildslash") {
+				p.Steps = append(p.Steps, xast.DSlash{})
+				cur = g.advance(cur, xast.DSlash{})
+			}
 			st := g.Step(cur)
 			p.Steps = append(p.Steps, st)
 			cur = g.advance(cur, st)
